@@ -166,7 +166,12 @@ def run(case, rec):
         if not rec.check(c.ok, "no-exception", f"get_structure_factor raised {common.exc_text(c.exc) if c.exc else ''}; {label}"):
             rec.evaluated(nontrivial=False)
             return
-        k, s = (np.asarray(x, float) for x in c.result)
+        k, s = (np.array(x, float, copy=True) for x in c.result)
+        # the returned arrays belong to the caller: overwriting them must not influence later calls
+        for arr in c.result:
+            if isinstance(arr, np.ndarray) and arr.flags.writeable:
+                arr[...] = -1.0
+                rec.hit("scribbled-results")
         rec.check(k.shape == s.shape == (data.size - 1,), "shape", f"returned shapes {k.shape}, {s.shape} for {data.size} cells; {label}")
         rec.check(bool(np.all(s >= 0)), "non-negative", f"negative structure factor {float(s.min())}; {label}")
         mean = float(data.mean())
